@@ -324,6 +324,9 @@ class Ctx:
         result, secs, model, reason = res
         rec = dict(bench=bn, kind=q["kind"], goal=q["name"], frames=[q["lo"], q["hi"]], result=result,
                    solver_s=round(secs, 3))
+        if os.environ.get("VERIF_PROGRESS"):
+            print("[%6.1fs] %s %s %s %s %s %.1fs" % (time.time() - self.t0, bn, q["kind"], q["name"][:50], [q["lo"], q["hi"]], result, secs),
+                  file=sys.stderr, flush=True)
         job = self.jobs[bn]
         if q["kind"] == "cross_check":
             rec["engine"] = "z3 5.1 wheel: simplify/propagate-values/solve-eqs/elim-uncnstr/bit-blast/aig/sat"
